@@ -103,6 +103,20 @@ Theorem join_reorder_noop_without_conditions : forall b a,
 Proof. exact reorder_noop. Qed.
 Print Assumptions join_reorder_noop_without_conditions.
 
+(** DISTINCT and aggregation above a reordered tree only see the bag (so [k_reorder] does not
+    contain them; LIMIT/SKIP it does) *)
+Theorem distinct_respects_bags : forall l1 l2 ks1 ks2,
+  NoDup ks1 -> NoDup ks2 ->
+  (forall r, In r l1 -> keys r = ks1) -> (forall r, In r l2 -> keys r = ks2) ->
+  bag_eqv l1 l2 -> bag_eqv (dedup nil l1) (dedup nil l2).
+Proof. exact bag_eqv_dedup. Qed.
+Print Assumptions distinct_respects_bags.
+
+Theorem aggregate_respects_bags : forall G groups aggs l1 l2,
+  bag_eqv l1 l2 -> Permutation (agg_rows G groups aggs l1) (agg_rows G groups aggs l2).
+Proof. exact agg_rows_bag. Qed.
+Print Assumptions aggregate_respects_bags.
+
 (** the pass as a whole *)
 Theorem switch_subsets : forall G fp jr pp (R : plan -> plan) p,
   uniform p = true ->
@@ -161,6 +175,27 @@ Theorem push_filters_sound_engine_pre : forall G p,
 Proof. exact pfd_sound_engine_pre. Qed.
 Print Assumptions push_filters_sound_engine_pre.
 
+(** the proposed repair of C09-K1 (proposed-fixes/C09-push-filter-scope.diff; [pfd_fix] transcribes
+    the patched functions, NOT the code of /repo): sound outside what is left of the class; the three
+    witnesses above are no longer in it and keep their rows *)
+Theorem proposed_push_filters_fix_sound : forall G p,
+  uniform p = true -> k_push_fix p = false -> sem G (pfd_fix p) = sem G p.
+Proof. exact pfd_fix_sound_k. Qed.
+Print Assumptions proposed_push_filters_fix_sound.
+
+(** ... and that is empty on every plan the Binder accepts ([wscoped]: expressions mention only
+    columns of their input) whose predicates do not spell a column name the planner invents *)
+Theorem proposed_push_filters_fix_sound_scoped : forall G p,
+  uniform p = true -> wscoped p = true -> names_ok p = true -> sem G (pfd_fix p) = sem G p.
+Proof. exact pfd_fix_scoped. Qed.
+Print Assumptions proposed_push_filters_fix_sound_scoped.
+
+Theorem proposed_push_filters_fix_covers_witnesses : exists G p,
+  uniform p = true /\ no_conds p = true /\ k_push p = true /\ ~ Permutation (sem G (pfd p)) (sem G p) /\
+  k_push_fix p = false /\ sem G (pfd_fix p) = sem G p.
+Proof. exact pfd_fix_witness_frontend. Qed.
+Print Assumptions proposed_push_filters_fix_covers_witnesses.
+
 (** non-vacuity: the hypotheses hold on plans the passes really change *)
 From Coq Require Import String ZArith.
 Open Scope string_scope.
@@ -187,6 +222,37 @@ Proof. vm_compute. repeat split. Qed.
 
 Example nv_stack : let p := PFilter (EBin OEq (EProp "a" "v") (ELit (VInt 1%Z)))
     (PJoin JCross [] (PScan "c" (Some "C"))
-       (PFilter (EHasLabel "b" "B") (PExpand "a" "b" None DOut (Some "R") (PScan "a" (Some "A"))))) in
+       (PFilter (EHasLabel "b" "B") (PExpand "a" "b" None DOut (Some "R") hop1 (PScan "a" (Some "A"))))) in
   uniform p = true /\ k_push p = false /\ no_stack p = true /\ no_stack (pfd p) = false.
+Proof. vm_compute. repeat split. Qed.
+
+(** a variable-length expand: the predicate on the source is pushed below it, the walks of length 1..2 stay *)
+Example nv_varlen :
+  let G := mkGraph [mkNode 0 ["A"] [("v", VInt 1%Z)]; mkNode 1 ["A"] [("v", VInt 2%Z)]; mkNode 2 ["B"] []]
+                   [mkEdge 0 0%Z 1%Z "R" []; mkEdge 1 1%Z 2%Z "R" []; mkEdge 2 1%Z 0%Z "R" []] in
+  let p := PFilter (EBin OEq (EProp "a" "v") (ELit (VInt 1%Z)))
+             (PExpand "a" "b" (Some "r") DOut (Some "R") (mkHops 1 (Some 2%nat) (Some "p")) (PScan "a" (Some "A"))) in
+  uniform p = true /\ k_push p = false /\ plan_eqb (pfd p) p = false /\ sem G (pfd p) = sem G p
+  /\ List.length (sem G p) = 3%nat.
+Proof. vm_compute. repeat split. Qed.
+
+(** DISTINCT and count above a reordered join tree are outside [k_reorder] *)
+Example nv_reorder_distinct :
+  let b := PJoin JInner [(EVar "y", EVar "z")]
+             (PJoin JInner [(EVar "x", EVar "y")] (PScan "x" (Some "A")) (PScan "y" (Some "A"))) (PScan "z" (Some "A")) in
+  let a := PJoin JInner [(EVar "x", EVar "y")] (PScan "x" (Some "A"))
+             (PJoin JInner [(EVar "y", EVar "z")] (PScan "y" (Some "A")) (PScan "z" (Some "A"))) in
+  k_reorder (PAgg [] [(ACountStar, Some "c")] (PDistinct b)) (PAgg [] [(ACountStar, Some "c")] (PDistinct a)) = false
+  /\ k_reorder (PLimit 1 b) (PLimit 1 a) = true.
+Proof. vm_compute. repeat split. Qed.
+
+(** the hypotheses of the scoped theorem hold on the K1 witness and on a plan the patched pass changes *)
+Example nv_fix_scoped :
+  let p1 := PReturn [(EProp "a" "v", None); (EProp "b" "v", None); (EProp "c" "v", None)] false
+    (PFilter (EBin OEq (EProp "a" "v") (EProp "c" "v"))
+       (PJoin JCross [] (PScanIn "b" (Some "B") (PScan "a" (Some "A"))) (PScan "c" (Some "C")))) in
+  let p2 := PFilter (EBin OGt (EProp "a" "v") (ELit (VInt 0%Z)))
+       (PJoin JCross [] (PScanIn "b" (Some "B") (PScan "a" (Some "A"))) (PScan "c" (Some "C"))) in
+  uniform p1 = true /\ wscoped p1 = true /\ names_ok p1 = true /\ k_push p1 = true /\
+  uniform p2 = true /\ wscoped p2 = true /\ names_ok p2 = true /\ plan_eqb (pfd_fix p2) p2 = false.
 Proof. vm_compute. repeat split. Qed.
